@@ -187,7 +187,7 @@ def run(tier):
     v = Verdict("C14", "exploration", tier)
     cli = common.build_cli()
     drv = common.build_driver()
-    n = 80 if tier == "quick" else 800
+    n = 80 if tier == "quick" else 3000
     nsecond = 3 if tier == "quick" else 12
     base = common.seed() * 14000029
     jobs = []
